@@ -563,7 +563,8 @@ def findLastOf (s : St) (v : Nat) (chars : List Nat) : Option (St × Option Nat)
 
 /-- `toBool()` on the content `c` and the C string `a` -/
 def toBoolL (c a : List Nat) : Bool :=
-  if c.length = 0 ∨ (c.length = 5 ∧ strcmpL (a.map toLower) [102, 97, 108, 115, 101] = 0) ∨ c = [48] then false
+  if c.length = 0 ∨ (c.length = Generated.toBoolFalseLit.length ∧ strcmpL (a.map toLower) Generated.toBoolFalseLit = 0) ∨
+      c = Generated.toBoolZeroLit then false
   else
     match a.dropWhile (· == 48) with
     | 46 :: q =>
@@ -577,7 +578,8 @@ def toBool (s : St) (v : Nat) : Option (St × Bool) := do
     -- `*this == "0"`: length test, then `memcmp` on `data->str` — no C string view is taken for it
     -- (`equalsIgnoreCase("false")` before it looks only at strings of length 5 and takes the views then;
     --  that case goes on to `const char* p = *this` below and yields the same state and result)
-    let z ← (if d.len = 1 then (contentVal s v).map (fun c => c == [48]) else some false)
+    let z ← (if d.len = Generated.toBoolZeroLit.length then (contentVal s v).map (fun c => c == Generated.toBoolZeroLit)
+             else some false)
     if z then pure (s, false)
     else do
       let s ← cview s v
@@ -771,10 +773,15 @@ def printfTail (s : St) (v : Nat) (out : List Nat) : Option (St × Nat) := do
     let s ← writeOwn s v m out.length
     pure (s, out.length)
 
-/-- `printf(format, …)`: `detach(0, 200)`, then the two attempts -/
-def printf (s : St) (v : Nat) (f : List Fmt) : Option (St × Nat) := do
+/-- `printf(format, …)` relative to the libc formatter: `out` is what `vsnprintf` produces for the format and the
+    arguments (any NUL-free chars of any length — `%f`, widths, precisions, `%x` … are not interpreted by the model);
+    `detach(0, 200)`, then the two attempts -/
+def printfOut (s : St) (v : Nat) (out : List Nat) : Option (St × Nat) := do
   let s ← detach s v 0 Generated.printfBuf
-  printfTail s v (render f)
+  printfTail s v out
+
+/-- `printf(format, …)` for the directives the model interprets (`render`) -/
+def printf (s : St) (v : Nat) (f : List Fmt) : Option (St × Nat) := printfOut s v (render f)
 
 /-! ### operators and static factories that return a String by value
 
@@ -814,6 +821,13 @@ def fromBool (s : St) (v : Nat) (b : Bool) : Option St :=
     return value, no copy), then `v = <result>` -/
 def fromFmt (s : St) (v : Nat) (f : List Fmt) (tmp : Nat) : Option St := do
   let (s, _) ← printf s tmp f
+  let s ← assign s v tmp
+  pure (setEmpty s tmp)
+
+/-- `fromDouble` (and any factory of the shape `String result; result.printf(fmt, value); return result;`) relative to
+    the libc formatter: `out` is the formatted text -/
+def fromOut (s : St) (v : Nat) (out : List Nat) (tmp : Nat) : Option St := do
+  let (s, _) ← printfOut s tmp out
   let s ← assign s v tmp
   pure (setEmpty s tmp)
 
@@ -892,6 +906,8 @@ inductive Op where
   | fromD (v : Nat) (x : Int)                -- `v = String::fromInt(x)` / `fromInt64(x)`
   | fromU (v : Nat) (x : Nat)                -- `v = String::fromUInt(x)` / `fromUInt64(x)`
   | fromPrintf (v : Nat) (f : List Fmt)      -- `v = String::fromPrintf(format, …)`
+  | printfO (v : Nat) (out : List Nat)       -- `v.printf(format, …)` with any format: `out` = the libc formatter's output
+  | fromOut (v : Nat) (out : List Nat)       -- `v = String::fromDouble(x)`: `out` = the text `%f` gives
   deriving Repr
 
 /-- user variables are `0 .. nu-1`, temporaries `nu`, `nu+1`, `nu+2` -/
@@ -951,6 +967,8 @@ def step (s : St) (op : Op) : Option St :=
   | .fromD v x => if validVar s v then fromFmt s v [.d x] t else none
   | .fromU v x => if validVar s v then fromFmt s v [.u x] t else none
   | .fromPrintf v f => if validVar s v then fromPrintf s v f t else none
+  | .printfO v out => if validVar s v then (printfOut s v out).map (·.1) else none
+  | .fromOut v out => if validVar s v then fromOut s v out t else none
 
 def run (s : St) : List Op → Option St
   | [] => some s
